@@ -966,6 +966,22 @@ func runLifecycle(order []int, ch *simrt.Chooser, lo lifeOpts) (*hx.Failure, *si
 			w.failf("C19/panic", "panic in %s during %v: %v\n%s", g.Name, names, g.Panic, g.PanicStack)
 		}
 	}
+	// Fini releases whoever waits for room in the event queue: a callback
+	// from JavaScript that is still parked after Fini returned (and the
+	// simulation ran to quiescence) stays parked for good - in a browser
+	// that is a frozen page.
+	finiCalled := false
+	for _, n := range names {
+		finiCalled = finiCalled || n == "Fini"
+	}
+	if w.fail == nil && finiCalled && app.Done() {
+		for _, g := range w.s.Goroutines() {
+			if !g.Done() && g.Panic == nil && (strings.HasPrefix(g.Name, "js-callback") || g.Name == "host") {
+				w.failf("C19/deadlock", "%s is still waiting after Fini returned (%v): a callback parked on the full event queue is never released: %v", g.Name, names, w.s.Blocked())
+				break
+			}
+		}
+	}
 	return w.fail, w.s, nil
 }
 
